@@ -19,10 +19,10 @@ from sa.selftest import Edit, Variant
 from sa.sym import (ClassRef, Closure, Cond, Ext, Interp, PyCallable, Rec, SymStr, Undecided, closure_of, explore, method_of,
                     simplify_num, to_rf)
 
-from sa.texts import T as _T
+from sa.texts import T as _TX
 
-EXPLANATION = _T["C11"]["explanation"] + " Not decided: " + _T["C11"]["not_decided"] + "."
-ASSUMPTIONS = _T["C11"]["assumptions"]
+EXPLANATION = _TX["C11"]["explanation"] + " Not decided: " + _TX["C11"]["not_decided"] + "."
+ASSUMPTIONS = _TX["C11"]["assumptions"]
 P = "C11"
 S = RF.sym
 
